@@ -19,7 +19,7 @@
 (***************************************************************************)
 EXTENDS Naturals, Integers, Sequences, FiniteSets, TLC
 
-NoConn == [st |-> "none", key |-> 0, cdrop |-> FALSE]
+NoConn == [st |-> "none", key |-> 0, cdrop |-> FALSE, cgone |-> FALSE]
 NoCall == [k |-> 0, st |-> "none", dl |-> 0, sent |-> FALSE, id |-> -1, ans |-> FALSE, P |-> 0, h |-> "none", starts |-> 0, gate |-> FALSE, inc |-> 0]
 
 YInit(n, limit, mif) ==
@@ -43,11 +43,11 @@ YAdmitted(y, k) ==
                 "a channel was admitted while n channels of its key were alive")
   IN SetConn(y1, k, [c EXCEPT !.st = "alive"])
 
-YConnect(y0, k, key) == LET y == y0 IN SetConn(y, k, [st |-> "offered", key |-> key, cdrop |-> FALSE])
+YConnect(y0, k, key) == LET y == y0 IN SetConn(y, k, [st |-> "offered", key |-> key, cdrop |-> FALSE, cgone |-> FALSE])
 
 YArrive(y0, k, key) ==
   LET y == y0 IN
-  SetConn(y, k, [st |-> "deciding", key |-> key, cdrop |-> Conn(y, k).cdrop])
+  SetConn(y, k, [st |-> "deciding", key |-> key, cdrop |-> Conn(y, k).cdrop, cgone |-> Conn(y, k).cgone])
 
 (* the server side of connection k was dropped *)
 YServerDrop(y0, k) ==
@@ -58,9 +58,14 @@ YServerDrop(y0, k) ==
                      "a channel was shed while fewer than n channels of its key were alive"),
                  k, [c EXCEPT !.st = "shed"])
     ELSE LET running == {x \in CallsOf(y, k) : y.call[x].st = "pending" /\ y.call[x].h = "running" /\ y.now < y.call[x].dl} IN
-         SetConn(Bad(y, "bad10", ~y.down /\ running # {},
-                     "a server channel ended while the handler of a live call was still running"),
+         SetConn(Bad(Bad(y, "bad10", ~y.down /\ running # {},
+                         "a server channel ended while the handler of a live call was still running"),
+                     "bad10", ~y.down /\ c.st = "alive" /\ ~c.cgone,
+                     "a server channel ended although its client had not closed the connection"),
                  k, [c EXCEPT !.st = "gone"])
+
+(* the client side of connection k is gone: its dispatch ended (it closes the transport first) *)
+YClientGone(y, k) == IF k \in DOMAIN y.conn THEN SetConn(y, k, [y.conn[k] EXCEPT !.cgone = TRUE]) ELSE y
 
 YCall(y0, c, k, dl) ==
   LET y == y0 IN
